@@ -173,7 +173,9 @@ def run_jitter(scn):
             with quiet():
                 jitter_command(p_in, p1, delta, seed=seed, force=True)
                 jitter_command(p_in, p2, delta, seed=seed, force=True)
-                jitter_command(p_in, p3, delta, seed=(seed or 42) + 1 + scn.get("seed_step", 0), force=True)
+                # another seed; for seed 0 the documented default (42), which a falsy test would confuse it with
+                other = 42 if seed == 0 else (42 if seed is None else seed) + 1 + scn.get("seed_step", 0)
+                jitter_command(p_in, p3, delta, seed=other, force=True)
         except (Exception, SystemExit) as e:  # noqa: BLE001
             raise Violation("C20.jitter.raises", {"exc": repr(e)[:200], "delta": delta, "extra_col": bool(scn.get("extra_col"))})
         with open(p1, "rb") as f1, open(p2, "rb") as f2, open(p3, "rb") as f3:
@@ -366,7 +368,7 @@ def gen_scn(r, family, tier):
         p = gen_params(r)
         p.pop("random_seed", None)
         p["duration"] = min(p["duration"], 300.0)
-        return {"kind": "sample", "params": p, "samples": r.randint(2, 5), "start_seed": r.choice([0, 1, 42, r.randint(0, 10 ** 6)]),
+        return {"kind": "sample", "params": p, "samples": r.randint(2, 5), "start_seed": r.choice([0, 1, 42, r.randint(0, 10 ** 6), r.randint(0, 10 ** 6), 2 ** 31 - 1, 2 ** 32 - 2, 2 ** 32 + r.randint(0, 50), 2 ** 63 - 1, 2 ** 64 + 7]),
                 "jitter_seed": r.choice([None, 7]), "order_seed": r.randint(0, 99), "rerun_same_dir": r.random() < 0.4}
     tps = r.choice([1, 2, 3, 5, 7, 10, 16, 30, 100, 100, 250, 1000, 10 ** 4, 10 ** 5])
     n = r.randint(1, 40)
@@ -404,7 +406,7 @@ def gen_scn(r, family, tier):
             scn["nops"] = [scn["nops"][i] for i in idx]
             scn["unsorted_input"] = True
         scn["delta"] = r.choice([0, 0, 1e-6, 0.001, 0.5 / tps, 1 / tps, 1.0, 10.0])
-        scn["seed"] = r.choice([None, 0, 1, 42, r.randint(0, 10 ** 6)])
+        scn["seed"] = r.choice([None, 0, 0, 1, 42, r.randint(0, 10 ** 6), r.randint(0, 10 ** 6), 2 ** 32 - 1, 2 ** 32 + 5, 2 ** 64 + 1])
         scn["seed_step"] = r.randint(0, 5)
     return scn
 
